@@ -103,8 +103,13 @@ type RPCSpec struct {
 	Shape   int
 	Unknown bool // call an unregistered rpc name
 	BadMarshal bool // unary: the request cannot be encoded
-	Meta    map[string]string
+	Meta    map[string]string // what the handler must see
 	HasMeta bool
+	// how the application attaches it: 0 AddPairs(fresh map); 1 AddPairs(the
+	// application's long-lived shared map) then Add for the per-call pairs;
+	// 2 Add pair by pair
+	MetaStyle  int
+	MetaExtras map[string]string
 	ReqSize int
 
 	COps []Op
@@ -143,7 +148,7 @@ func (r *RPCSpec) String() string {
 		s += " unencodable-request"
 	}
 	if r.HasMeta {
-		s += " meta=" + fmtMap(r.Meta)
+		s += fmt.Sprintf(" meta(style%d)=", r.MetaStyle) + fmtMap(r.Meta)
 	}
 	if r.Shape == ShUnary || r.Shape == ShSStream {
 		s += fmt.Sprintf(" req=%d", r.ReqSize)
@@ -389,9 +394,29 @@ func (g *e1gen) meta(idx int) map[string]string {
 			}
 			v = string(b)
 		}
+		if g.chance(0.25) {
+			// lengths around the varint boundaries, for the value alone or for
+			// the whole entry (2 + len(k) + 2 + len(v) with one-byte prefixes)
+			k = fmt.Sprintf("b%d-%d", idx, i)
+			n := []int{126, 127, 128, 129, 16383, 16384}[g.pick(6)]
+			if g.chance(0.5) && n < 1000 {
+				n -= 4 + len(k)
+			}
+			b := make([]byte, n)
+			for j := range b {
+				b[j] = 'a' + byte((j+idx)%26)
+			}
+			v = string(b)
+		}
 		m[k] = v
 	}
 	return m
+}
+
+// sharedMetaTemplate: the content of the long-lived map an application passes to
+// AddPairs for every call (style 1).
+func sharedMetaTemplate() map[string]string {
+	return map[string]string{"shared-auth": "token-of-the-application", "shared-zone": "z1"}
 }
 
 func (g *e1gen) errSpec(idx int) ErrSpec {
@@ -590,6 +615,25 @@ func (g *e1gen) rpc(idx int) *RPCSpec {
 	if g.chance(m.MetaP) {
 		r.HasMeta = true
 		r.Meta = g.meta(idx)
+		switch r.MetaStyle = g.weighted(5, 3, 1); r.MetaStyle {
+		case 1:
+			// the shared map plus at most two per-call pairs
+			r.MetaExtras = map[string]string{}
+			n := 0
+			for k, v := range r.Meta {
+				if n < 2 && len(k) < 64 && len(v) < 64 {
+					r.MetaExtras[k] = v
+					n++
+				}
+			}
+			r.Meta = map[string]string{}
+			for k, v := range sharedMetaTemplate() {
+				r.Meta[k] = v
+			}
+			for k, v := range r.MetaExtras {
+				r.Meta[k] = v
+			}
+		}
 	}
 	r.ReqSize = g.size()
 	if r.ReqSize < 12 || g.chance(0.5) {
